@@ -1,4 +1,138 @@
 // Copyright Amazon.com, Inc. or its affiliates. All Rights Reserved.
 // SPDX-License-Identifier: Apache-2.0
 
-//! verification hook drivers: misc
+//! verification hook drivers: misc (replies to datagrams that belong to no connection)
+
+use super::{stateless_reset, version};
+use crate::verif_hooks::common::{VerifClient, VerifServer};
+use s2n_codec::DecoderBufferMut;
+use s2n_quic_core::{
+    connection::id::ConnectionInfo,
+    event::testing::Publisher,
+    inet::SocketAddress,
+    io::tx,
+    packet::ProtectedPacket,
+    path::{self, Handle as _},
+    random,
+    stateless_reset::token::testing::TEST_TOKEN_1,
+};
+
+/// A transmission queue that records the payload length of every message pushed
+#[derive(Default)]
+pub struct RecordingQueue {
+    pub lens: Vec<usize>,
+    pub first_bytes: Vec<u8>,
+}
+
+impl tx::Queue for RecordingQueue {
+    type Handle = path::RemoteAddress;
+
+    fn push<M: tx::Message<Handle = Self::Handle>>(
+        &mut self,
+        mut message: M,
+    ) -> Result<tx::Outcome, tx::Error> {
+        let mut buf = [0u8; 2048];
+        let len = {
+            let buffer = tx::PayloadBuffer::new(&mut buf);
+            message.write_payload(buffer, 0)?
+        };
+        self.lens.push(len);
+        self.first_bytes.push(buf[0]);
+        Ok(tx::Outcome { len, index: 0 })
+    }
+
+    fn capacity(&self) -> usize {
+        usize::MAX
+    }
+
+    fn has_capacity(&self) -> bool {
+        true
+    }
+}
+
+/// Result of offering one datagram to the version negotiator
+pub struct VnResult {
+    /// the first packet of the datagram decoded
+    pub decoded: bool,
+    /// 0 = short, 1 = version negotiation, 2 = initial, 3 = 0-RTT, 4 = handshake, 5 = retry
+    pub kind: u8,
+    pub version: u32,
+    /// `on_packet` returned Ok (datagram is processed further) or Err (dropped)
+    pub accepted: bool,
+    /// payload lengths of the Version Negotiation packets then put on the wire
+    pub sent: Vec<usize>,
+}
+
+/// Offers a datagram to a fresh `version::Negotiator` exactly as `Endpoint::receive_datagram`
+/// does (first packet decoded, negotiator consulted with the datagram's payload length), then
+/// flushes the negotiator into a recording queue.
+pub fn vn_on_datagram(server: bool, payload: &mut [u8]) -> VnResult {
+    let payload_len = payload.len();
+    let remote_address = SocketAddress::default();
+    let connection_info = ConnectionInfo::new(&remote_address);
+    let handle = path::RemoteAddress::from_remote_address(remote_address.into());
+    let buffer = DecoderBufferMut::new(payload);
+    let mut res = VnResult {
+        decoded: false,
+        kind: 0,
+        version: 0,
+        accepted: false,
+        sent: vec![],
+    };
+    let Ok((packet, _remaining)) = ProtectedPacket::decode(buffer, &connection_info, &20usize)
+    else {
+        return res;
+    };
+    res.decoded = true;
+    res.kind = match &packet {
+        ProtectedPacket::Short(_) => 0,
+        ProtectedPacket::VersionNegotiation(_) => 1,
+        ProtectedPacket::Initial(_) => 2,
+        ProtectedPacket::ZeroRtt(_) => 3,
+        ProtectedPacket::Handshake(_) => 4,
+        ProtectedPacket::Retry(_) => 5,
+    };
+    res.version = packet.version().unwrap_or(0);
+    let mut publisher = Publisher::no_snapshot();
+    let mut queue = RecordingQueue::default();
+    if server {
+        let mut negotiator = version::Negotiator::<VerifServer>::default();
+        res.accepted = negotiator
+            .on_packet(&handle, payload_len, &packet, &mut publisher)
+            .is_ok();
+        negotiator.on_transmit(&mut queue, &mut publisher);
+    } else {
+        let mut negotiator = version::Negotiator::<VerifClient>::default();
+        res.accepted = negotiator
+            .on_packet(&handle, payload_len, &packet, &mut publisher)
+            .is_ok();
+        negotiator.on_transmit(&mut queue, &mut publisher);
+    }
+    res.sent = queue.lens;
+    res
+}
+
+/// Queues a stateless reset for a datagram of `triggering_packet_len` bytes exactly as
+/// `Endpoint::enqueue_stateless_reset` does and flushes the dispatcher into a recording queue.
+/// Returns the payload lengths put on the wire and the first byte of each.
+pub fn stateless_reset_for(
+    max_tag_len: usize,
+    triggering_packet_len: usize,
+    seed: u8,
+) -> (Vec<usize>, Vec<u8>) {
+    let remote_address = SocketAddress::default();
+    let handle = path::RemoteAddress::from_remote_address(remote_address.into());
+    let mut dispatch = stateless_reset::Dispatch::<path::RemoteAddress>::default();
+    let mut generator = random::testing::Generator(seed);
+    dispatch.queue(
+        handle,
+        TEST_TOKEN_1,
+        max_tag_len,
+        triggering_packet_len,
+        &mut generator,
+    );
+    let mut publisher = Publisher::no_snapshot();
+    let mut queue = RecordingQueue::default();
+    dispatch.on_transmit(&mut queue, &mut publisher);
+    (queue.lens, queue.first_bytes)
+}
